@@ -16,7 +16,7 @@
 //
 // Caller obligations respected: strings <= AWS_DATE_TIME_STR_MAX_LEN; AUTO_DETECT never passed to a formatter;
 // every RFC 822 input carries a zone (zone-less RFC 822 is "local time, please don't"); the week day is optional
-// (source comment and the suite's rfc822_utc_no_dow_parsing), two-digit years are only rendered for 2000..2099.
+// (source comment and the suite's rfc822_utc_no_dow_parsing), two-digit years are only rendered for 2000..2049 (where "20yy" and the RFC 2822 reading agree).
 #include "pbt.hpp"
 
 #include <aws/common/byte_buf.h>
@@ -430,7 +430,7 @@ static void run_parse(const Op &op, Ctx &ctx) {
     std::string text;
     const char SEP[] = {'T', 't', ' '};
     if (kind != K_RFC822) shape = 0;
-    if ((shape == 2 || shape == 3) && (c.y < 2000 || c.y > 2099)) shape -= 2; // two digits mean 20yy to this parser
+    if ((shape == 2 || shape == 3) && (c.y < 2000 || c.y > 2049)) shape -= 2; // 00..49: 20yy to this parser and by the RFC 2822 pivot alike
     if (kind == K_RFC822) {
         bool wd = shape == 0 || shape == 2 || (shape == 4 && op.arg(9) / 2 % 2 == 0), yy = shape == 2 || shape == 3;
         text = (wd ? std::string(WD[c.wd]) + ", " : std::string()) + fmt(shape == 4 ? "%u" : "%02u", c.d) + " " + MON[c.mo - 1] + " " +
@@ -500,7 +500,7 @@ int main(int argc, char **argv) {
             "1-6 independent operations per case. FMT: instant (uniform in 1970..9999, month boundaries +-1s..+-1day of listed and arbitrary "
             "years, leap days, century years, extremes, 2^31/2^32 seconds) -> accessors, epoch views, six texts vs. reference, parse-back with "
             "explicit format / AUTO_DETECT / other ISO flag. PARSE: harness-rendered RFC 822 / ISO extended / ISO basic text with offset "
-            "-14:00..+14:00 (+-hhmm, ISO also +-hh:mm), Z/UT/UTC/GMT in both cases, RFC 822 also without week day, with a two-digit year (20yy) and a one-digit day, ISO fraction .d{1,9} / ,d{1,9}, T/t/space. Non-trivial = an "
+            "-14:00..+14:00 (+-hhmm, ISO also +-hh:mm), Z/UT/UTC/GMT in both cases, RFC 822 also without week day, with a two-digit year (2000..2049) and a one-digit day, ISO fraction .d{1,9} / ,d{1,9}, T/t/space. Non-trivial = an "
             "instant on the first or last day of a month in a year divisible by 4 or 100, or a parse input with a non-zero offset; distinct by "
             "hash of the serialised case"};
     return pbt_main(argc, argv, sp);
